@@ -255,3 +255,57 @@ pub fn w_c19_r1_new_output_order_twin() {}
 /// let (_b, _r1, _r2, _r3): (B, ReadStream<u32>, ReadStream<u16>, NCReadStream<Vec<u64>>) = B::new(rx, 1.0);
 /// ```
 pub fn w_c19_r1_new_output_order() {}
+
+/// C19.R1: declaration order, not field-NAME order: the outputs are declared `upper`, `lower`, `mid` (not alphabetical) with
+/// three distinct types, so a constructor that hands the read ends back in any other order does not type-check here.
+/// ```no_run
+/// use rustradio::stream::{ReadStream, WriteStream, NCReadStream, NCWriteStream};
+/// use rustradio::block::{Block, BlockRet};
+/// #[derive(rustradio::rustradio_macros::Block)]
+/// #[rustradio(new)]
+/// pub struct B {
+///     #[rustradio(in)] src: ReadStream<u8>,
+///     #[rustradio(out)] upper: WriteStream<u16>,
+///     #[rustradio(out)] lower: WriteStream<u32>,
+///     #[rustradio(out)] mid: NCWriteStream<Vec<u64>>,
+///     gain: f32,
+/// }
+/// impl Block for B { fn work(&mut self) -> rustradio::Result<BlockRet> { Ok(BlockRet::EOF) } }
+/// let (_tx, rx) = rustradio::stream::new_stream::<u8>();
+/// let (_b, _r1, _r2, _r3): (B, ReadStream<u16>, ReadStream<u32>, NCReadStream<Vec<u64>>) = B::new(rx, 1.0);
+/// ```
+pub fn w_c19_r1_new_output_order_unsorted_twin() {}
+/// C19.R1: a caller that expects the read ends in field-name order (`lower`, `mid`, `upper`) must be rejected.
+/// ```compile_fail,E0308
+/// use rustradio::stream::{ReadStream, WriteStream, NCReadStream, NCWriteStream};
+/// use rustradio::block::{Block, BlockRet};
+/// #[derive(rustradio::rustradio_macros::Block)]
+/// #[rustradio(new)]
+/// pub struct B {
+///     #[rustradio(in)] src: ReadStream<u8>,
+///     #[rustradio(out)] upper: WriteStream<u16>,
+///     #[rustradio(out)] lower: WriteStream<u32>,
+///     #[rustradio(out)] mid: NCWriteStream<Vec<u64>>,
+///     gain: f32,
+/// }
+/// impl Block for B { fn work(&mut self) -> rustradio::Result<BlockRet> { Ok(BlockRet::EOF) } }
+/// let (_tx, rx) = rustradio::stream::new_stream::<u8>();
+/// let (_b, _r1, _r2, _r3): (B, ReadStream<u32>, NCReadStream<Vec<u64>>, ReadStream<u16>) = B::new(rx, 1.0);
+/// ```
+pub fn w_c19_r1_new_output_order_unsorted() {}
+/// C19.R1 (sync form): the generated work() hands the i-th component of process_sync's result to the i-th DECLARED
+/// output (`upper: u16` then `lower: u32`, not alphabetical): any other pairing does not type-check.
+/// ```no_run
+/// use rustradio::stream::{ReadStream, WriteStream};
+/// #[derive(rustradio::rustradio_macros::Block)]
+/// #[rustradio(new, sync)]
+/// pub struct S {
+///     #[rustradio(in)] src: ReadStream<u8>,
+///     #[rustradio(out)] upper: WriteStream<u16>,
+///     #[rustradio(out)] lower: WriteStream<u32>,
+/// }
+/// impl S { fn process_sync(&mut self, a: u8) -> (u16, u32) { (a as u16, a as u32) } }
+/// let (_tx, rx) = rustradio::stream::new_stream::<u8>();
+/// let (_b, _r1, _r2): (S, ReadStream<u16>, ReadStream<u32>) = S::new(rx);
+/// ```
+pub fn w_c19_r1_sync_output_order_unsorted_twin() {}
